@@ -1,7 +1,7 @@
 (* C01 -- every LDAP message survives encode -> decode unchanged. *)
 From Coq Require Import ZArith NArith List.
 From Coq.Strings Require Import Byte.
-From SV Require Import Base.Bytes Base.Py Gen.Generated Asn1.Model Msg.Types Msg.Encode Msg.Decode Msg.RoundTrip.
+From SV Require Import Gen.Sharing Base.Bytes Base.Py Gen.Generated Asn1.Model Msg.Types Msg.Encode Msg.Decode Msg.RoundTrip.
 Import ListNotations.
 
 (* For every message value of every protocol operation -- any id, any strings that are valid UTF-8
@@ -42,7 +42,15 @@ Proof.
   - vm_compute. reflexivity.
 Qed.
 
+(* The theorems above are about functions and values; that the message codec (_messages.py, _controls.py, _authentication.py, asn1.py, the BER half of _filter.py) keeps no state
+   between calls and shares none between objects is read off the source by tools/audit.py on every run
+   (Gen/Sharing.v): no memoisation, no module- or class-level container that is written, no mutable default, no
+   attribute written behind a dataclass, no parameter stored without a copy. *)
+Theorem C01_audit_no_state_between_calls : (hidden_state_messages ++ hidden_state_controls ++ hidden_state_authentication ++ hidden_state_asn1 ++ hidden_state_filter_ber = [])%list.
+Proof. exact eq_refl. Qed.
+
 Print Assumptions C01_decode_encode.
 Print Assumptions C01_reencode_is_identical.
 Print Assumptions C01_filter_round_trip.
 Print Assumptions C01_control_round_trip.
+Print Assumptions C01_audit_no_state_between_calls.
